@@ -8,7 +8,7 @@
    streams without entries, any label bytes). *)
 From Coq Require Import List ZArith NArith Bool Ascii String Lia.
 From Coq Require Permutation.
-From Qryn Require Import gen.DecodeConsts model.Decode proofs.DecodeProofs model.LokiLabels proofs.LokiLabelsProofs.
+From Qryn Require Import gen.DecodeConsts model.Decode proofs.DecodeProofs model.LokiLabels proofs.LokiLabelsProofs model.LokiTime proofs.LokiTimeProofs.
 Import ListNotations.
 Open Scope Z_scope.
 
@@ -203,6 +203,25 @@ Proof.
 Qed.
 Print Assumptions decode_faithful_loki_protobuf_text.
 
+(* ---------------------------------------------------------------- timestamp texts (parseTime, model/LokiTime.v)
+   time.Parse(time.RFC3339, .) is universally quantified (rfc). *)
+
+(* a nanosecond timestamp written as a decimal integer -- either sign, any number of digits incl. leading zeros -- under ts /
+   timestamp in the entries layout is read as exactly that number whenever it fits int64: no rounding, no float, and (since fix
+   e276684) no detour through the date parser for the minus sign *)
+Theorem parse_time_integer_exact :
+  forall (rfc : string -> option Z) (neg : bool) (ds : list N), ds <> [] -> all_digits ds = true ->
+  - 9223372036854775808 <= int_value neg ds < 9223372036854775808 ->
+  parse_time rfc (int_text neg ds) = Some (int_value neg ds).
+Proof. exact parse_time_integer_exact_l. Qed.
+Print Assumptions parse_time_integer_exact.
+
+(* every text is either handed to the library's RFC 3339 parser or read as a decimal integer: nothing else happens to it *)
+Theorem parse_time_dispatch :
+  forall (rfc : string -> option Z) s, parse_time rfc s = rfc s \/ parse_time rfc s = parse_int64 s.
+Proof. exact parse_time_dispatch_l. Qed.
+Print Assumptions parse_time_dispatch.
+
 (* the hypotheses above are met by non-trivial values; the model computes *)
 Example onentries_hypothesis_met :
   Forall call_wf [K [("app", "a")]%string [1; 2] [""; "x"]%string [0; 0]%N [1; 1]%N; K [] [] [] [] []].
@@ -242,4 +261,13 @@ Example malformed_label_strings_rejected :
   let p := fun t => parse_labels (fun _ => false) (fun _ => false) t [] in
   p "{}"%string = None /\ p "{a=""b"",}"%string = None /\ p "{a=""b"" c=""d""}"%string = None /\ p "{a=`b`}"%string = None /\
   p "{a=""b"%string = None /\ p "{1a=""b""}"%string = None /\ p "{a=""\q""}"%string = None /\ p "a=""b""}"%string = None /\ p "{a=""b"";c=""d""}"%string = None.
+Proof. vm_compute. repeat split. Qed.
+
+Example integer_timestamp_hypotheses_met :
+  let ds := [1; 7; 0; 0; 0; 0; 0; 0; 0; 0; 0; 0; 0; 0; 0; 0; 0; 0; 7]%N in
+  all_digits ds = true /\ int_value true ds = -1700000000000000007 /\ int_text true ds = "-1700000000000000007"%string /\
+  parse_time (fun _ => None) (int_text true ds) = Some (-1700000000000000007) /\
+  parse_time (fun _ => None) "-9223372036854775808"%string = Some (-9223372036854775808) /\
+  parse_time (fun _ => None) "9223372036854775808"%string = None /\
+  parse_time (fun _ => Some 5) "2023-11-14T22:13:20Z"%string = Some 5.
 Proof. vm_compute. repeat split. Qed.
